@@ -142,8 +142,26 @@ TIME_SPECS = ["yyyy", "zzz", "MM", "dd", "hh", "mm", "ss"]
 TIME_SEPARATORS = "-:. /T_,"
 
 
-def format_time(fmt, ms):
-    dt = datetime.datetime.fromtimestamp(ms // 1000, datetime.timezone.utc)
+_TZ_STATE = [None]
+
+
+def local_dt(ms, tz):
+    """broken-down local time of an epoch stamp in the POSIX time zone `tz` (rules incl. DST evaluated by the C library through
+    Python's time module, independently of Qt)"""
+    import os
+    import time
+    if tz in (None, "UTC"):
+        return datetime.datetime.fromtimestamp(ms // 1000, datetime.timezone.utc)
+    if _TZ_STATE[0] != tz:
+        os.environ["TZ"] = tz
+        time.tzset()
+        _TZ_STATE[0] = tz
+    t = time.localtime(ms // 1000)
+    return datetime.datetime(t.tm_year, t.tm_mon, t.tm_mday, t.tm_hour, t.tm_min, t.tm_sec)
+
+
+def format_time(fmt, ms, tz=None):
+    dt = local_dt(ms, tz)
     vals = {"yyyy": "%04d" % dt.year, "MM": "%02d" % dt.month, "dd": "%02d" % dt.day, "hh": "%02d" % dt.hour,
             "mm": "%02d" % dt.minute, "ss": "%02d" % dt.second, "zzz": "%03d" % (ms % 1000)}
     out = []
@@ -299,7 +317,7 @@ def evaluate(pattern, msg, opts):
             fmt = name[5:].strip() if name.startswith("time ") else ""
             ms = msg["time_ms"]
             if fmt == "":
-                dt = datetime.datetime.fromtimestamp(ms // 1000, datetime.timezone.utc)
+                dt = local_dt(ms, msg.get("tz"))
                 value = dt.strftime("%Y-%m-%dT%H:%M:%S")
                 if opts["time_ms"]:
                     value += ".%03d" % (ms % 1000)
@@ -308,7 +326,7 @@ def evaluate(pattern, msg, opts):
             elif fmt == "process":
                 raise Corner("process time is checked by shape only")
             else:
-                value = format_time(fmt, ms)
+                value = format_time(fmt, ms, msg.get("tz"))
         else:
             q = name.find("?")
             if q == -1:
